@@ -19,7 +19,7 @@ def _write_ws(src):
         root = os.path.join(facts.CACHE, "wit")
         if os.path.isdir(root):
             ents = sorted(os.listdir(root), key=lambda e: os.path.getmtime(os.path.join(root, e)))
-            for e in ents[:-4]:
+            for e in ents[:-24]:
                 shutil.rmtree(os.path.join(root, e), ignore_errors=True)
         os.makedirs(os.path.join(d, "wit", "src"))
         with open(os.path.join(d, "wit", "Cargo.toml"), "w") as f:
